@@ -1,5 +1,6 @@
 import HpxVerif.Props.C02
 import HpxVerif.Lemmas.HashReal3
+import HpxVerif.Lemmas.FrontendReal
 
 /-!
 # C01 — NESTED hash is total, in range, and returns a cell that contains the point
@@ -147,5 +148,16 @@ theorem lon_bound_is_sharp (d : ℕ) (hd1 : 1 ≤ d) (hd : d ≤ 31) :
     ¬ gridCoord d ((Hash.d0hLhInD0c (α := ℝ) (129 * Real.pi / 2) 0).2.2 +
         (Hash.d0hLhInD0c (α := ℝ) (129 * Real.pi / 2) 0).2.1) < 2 ^ d :=
   lon_saturation_counterexample d hd1 hd
+
+/-- over the reals the front end stays inside the back end's domain: `h + l` and `h − l` lie in `[0, 2]` for every
+    latitude in `[−π/2, π/2]` and every `|lon| < 64π` — the hypothesis "patterns small, not negative" of C02's
+    `hash_prefix` holds for the exact values (for doubles it is evaluated on every generated position) -/
+theorem frontend_small_real (lon lat : ℝ) (hlon : |lon| < 64 * Real.pi) (hl1 : -(Real.pi / 2) ≤ lat)
+    (hl2 : lat ≤ Real.pi / 2) :
+    0 ≤ (Hash.d0hLhInD0c (α := ℝ) lon lat).2.2 + (Hash.d0hLhInD0c (α := ℝ) lon lat).2.1 ∧
+    (Hash.d0hLhInD0c (α := ℝ) lon lat).2.2 + (Hash.d0hLhInD0c (α := ℝ) lon lat).2.1 ≤ 2 ∧
+    0 ≤ (Hash.d0hLhInD0c (α := ℝ) lon lat).2.2 - (Hash.d0hLhInD0c (α := ℝ) lon lat).2.1 ∧
+    (Hash.d0hLhInD0c (α := ℝ) lon lat).2.2 - (Hash.d0hLhInD0c (α := ℝ) lon lat).2.1 ≤ 2 :=
+  Hpx.HashReal.frontend_small_real lon lat hlon hl1 hl2
 
 end Hpx.C01
